@@ -108,6 +108,25 @@ class ExtSession:
         self.counter += 1
         ctx.steps += 1
         k = ch.weighted([4, 6, 2, 1, 1 if len(self.exts) > 1 else 0, 1 if len(self.exts) > 1 else 0, 1 if len(self.exts) < 4 else 0], "ext-step")
+        if e.operations and ch.coin(1, 10, "refused-add"):
+            # fault, then workload: an add_op_def that fails (a bare FunctionType where an OpDefSig is expected) is caught
+            # by the caller; the extension, never successfully modified, must be exactly as before
+            from hugr import ext as hext
+            from hugr import tys
+            victim = ch.pick(sorted(e.operations), "refused-name")
+            try:
+                e.add_op_def(hext.OpDef(victim, tys.FunctionType([], [])))
+                ctx.ev(i, "add_op_def(bad signature object)", victim, "returned")
+            except Exception as ex:  # noqa: BLE001
+                ctx.ev(i, "add_op_def(bad signature object)", victim, type(ex).__name__)
+                ctx.fault("refused_add_op_def_then_continue")
+                ctx.checked("unchanged-after-refusal")
+                try:
+                    e.get_op(victim).get_extension()
+                    e.to_json()
+                except Exception as ex2:  # noqa: BLE001
+                    ctx.violate("owner", f"extension-broken-by-a-refused-add_op_def:{type(ex2).__name__}", {"ext": e.name, "op": victim})
+            return
         if k == 6:
             # a working copy of an extension, obtained by a round trip: equal to the original as a value, a distinct object
             from hugr.ext import Extension
@@ -162,6 +181,10 @@ class ExtSession:
                 ctx.violate("owner", "add_op_def-return", {"name": name})
         elif k == 2:
             name = f"v{self.counter}"
+            taken = sorted(set(e.operations) | set(e.types))
+            if taken and ch.coin(1, 3, "value-named-like-a-definition"):
+                name = ch.pick(taken, "which-name")  # values, operations and types are separate name spaces
+                ctx.probe("value_shares_a_name_with_an_op_or_type")
             e.add_extension_value(hext.ExtensionValue(name, gen_value(ch)))
             ctx.ev(i, "add_extension_value", {"ext": e.name, "name": name})
         elif k == 3:
